@@ -98,6 +98,20 @@ def gen_cases(tier, seed):
                       'nlisten': 1, 'explicit_close': False,
                       'chunk': 'all', 'socks_bad': None,
                       'socks_pipe': False, 'cseed': 1})
+    # a reader that starts only when everything upstream of it is full
+    # (socket buffers, the channel's send buffer, the whole SSH window): flow
+    # control has to hold the stream back, not break it
+    for kind in ('local', 'remote', 'socks5', 'local_unix', 'open_connection'):
+        for slow, up, down in (('client', 100, 7000000),
+                               ('dest', 7000000, 100)):
+            cases.append({'kind': kind, 'perm': 'allow', 'up': up,
+                          'down': down, 'pieces': 1, 'first_eof': 'client'
+                          if slow == 'dest' else 'dest',
+                          'order': 'concurrent', 'gate': 0, 'cut': None,
+                          'cut_mode': 'both', 'nconn': 1, 'cancel': False,
+                          'nlisten': 1, 'explicit_close': False,
+                          'chunk': 'all', 'socks_bad': None,
+                          'socks_pipe': False, 'slow': slow, 'cseed': 2})
     while len(cases) < n:
         kind = rng.choice(KINDS)
         case = {
@@ -201,7 +215,10 @@ async def _write_pieces(writer, data, pieces):
         await writer.drain()
 
 
-async def _read_all(reader, rec):
+async def _read_all(reader, rec, delay=0):
+    if delay:
+        # (virtual time: this returns once everybody else is blocked)
+        await asyncio.sleep(delay)
     while True:
         d = await reader.read(65536)
         if not d:
@@ -255,7 +272,8 @@ class Dest:
                 await _read_all(reader, rec)
                 await _write_pieces(writer, down, case['pieces'])
             else:
-                rt = asyncio.ensure_future(_read_all(reader, rec))
+                rt = asyncio.ensure_future(_read_all(
+                    reader, rec, 5 if case.get('slow') == 'dest' else 0))
                 try:
                     await _write_pieces(writer, down, case['pieces'])
                     if fe == 'dest':
@@ -558,28 +576,31 @@ def run_case(case):
             # ports / distinct paths); they carry no data, they only have to
             # go away with the connection
             extra_listeners = []
+            # (they point at the decoy destination: a connection through the
+            # first listener must not end up where a later one leads)
+            xaddr = dests[1].addr
             if listener is not None and not st['cut']:
                 for k in range(case['nlisten'] - 1):
                     xp = os.path.join(tmp, f'listen{k}.sock')
                     try:
                         if kind == 'local':
                             x = await conn.forward_local_port(
-                                '127.0.0.1', 0, '127.0.0.1', daddr)
+                                '127.0.0.1', 0, '127.0.0.1', xaddr)
                         elif kind == 'local_unix':
-                            x = await conn.forward_local_path(xp, daddr)
+                            x = await conn.forward_local_path(xp, xaddr)
                         elif kind == 'local_port_to_path':
                             x = await conn.forward_local_port_to_path(
-                                '127.0.0.1', 0, daddr)
+                                '127.0.0.1', 0, xaddr)
                         elif kind == 'local_path_to_port':
                             x = await conn.forward_local_path_to_port(
-                                xp, '127.0.0.1', daddr)
+                                xp, '127.0.0.1', xaddr)
                         elif kind == 'remote':
                             x = await asyncio.wait_for(
                                 conn.forward_remote_port(
-                                    '127.0.0.1', 0, '127.0.0.1', daddr), 60)
+                                    '127.0.0.1', 0, '127.0.0.1', xaddr), 60)
                         elif kind == 'remote_unix':
                             x = await asyncio.wait_for(
-                                conn.forward_remote_path(xp, daddr), 60)
+                                conn.forward_remote_path(xp, xaddr), 60)
                         else:
                             x = await conn.forward_socks('127.0.0.1', 0)
                         extra_listeners.append(x)
@@ -684,7 +705,12 @@ def run_case(case):
                             return
                         rt = None
                         if fe not in ('client_close', 'client_abort'):
-                            rt = asyncio.ensure_future(_read_all(r, rec))
+                            rt = asyncio.ensure_future(_read_all(
+                                r, rec,
+                                5 if case.get('slow') == 'client' else 0))
+                            if case.get('slow'):
+                                mon['slow_reader_cases'] = \
+                                    mon.get('slow_reader_cases', 0) + 1
                         try:
                             await _write_pieces(w, up_rest, case['pieces'])
                             if fe == 'client':
